@@ -194,6 +194,7 @@ def corr(ctx):
             ctx.disagree("filter_inventories", {"kind": "filter", "invs": invs, "q": q}, repr(r)[:500], repr(mo)[:500])
     if cases:
         ctx.sample({"filter": cases[0][1], "inventories": cases[0][0]})
+    corr_invlinks(ctx)
     # Sphinx in-memory representation: to_sphinx + filter_sphinx_inventories (arbitrary, also non-wf, inventories)
     cases, lines = [], []
     for i in range(ctx.budget(1500, 20000, 20000)):
@@ -216,6 +217,58 @@ def corr(ctx):
         if r != mo:
             ctx.disagree("filter_sphinx_inventories(to_sphinx)", {"kind": "filter", "invs": invs, "q": q, "wf": False},
                          repr(r)[:500], repr(mo)[:500])
+
+
+def corr_invlinks(ctx):
+    """render_link_inventory through the docutils front end vs the model, one link per document."""
+    import io as _io
+    import os
+    from docutils import nodes
+    from myst_parser import inventory as I
+    from lib.impl import publish, parse_warnings, scratch_dir
+    rng = ctx.rng
+    cases, lines = [], []
+    with scratch_dir() as d:
+        for i in range(ctx.budget(150, 1500, 1500)):
+            c = gen_invlink_case(rng)
+            link = c["links"][rng.randrange(len(c["links"]))]
+            pi, pd, po, pt = link
+            explicit = rng.random() < 0.5
+            base = rng.choice(["https://e.org/base", "https://e.org/base/", "", "rel", "/abs/"])
+            entries = [list(e) for e in c["entries"]]
+            if rng.random() < 0.3 and entries:
+                entries[0][3] = "/abs.html#$"
+            data = make_inv_bytes([tuple(e) for e in entries])
+            path = os.path.join(d, f"o{i}.inv")
+            with open(path, "wb") as f:
+                f.write(data)
+            path_s = ":".join(x for x in (pi, pd, po) if x is not None)
+            text = f"[{'text' if explicit else ''}](<inv:{path_s}#{pt}>)\n"
+            try:
+                doc, ws = publish(text, {"myst_inventories": {"k": (base, path)}})
+                warns = [w["tag"] for w in parse_warnings(ws) if (w["tag"] or "").startswith("myst.i")]
+                refs = [r for r in doc.findall(nodes.reference) if "inv_match" in r]
+                if not refs:
+                    obs = "missing" if warns == ["myst.iref_missing"] else "!" + repr(warns)
+                else:
+                    r = refs[0]
+                    kind = "children" if explicit else ("literal:" + enc_str(r[0].astext()) if isinstance(r[0], nodes.literal)
+                                                         else "text:" + enc_str(r[0].astext()))
+                    amb = "ambiguous" if warns == ["myst.iref_ambiguous"] else "one" if not warns else "!" + repr(warns)
+                    obs = f"{amb} {enc_str(r['refuri'])} {kind}"
+            except Exception as e:
+                obs = "!" + type(e).__name__
+            inv = I.load(_io.BytesIO(data), base_url=base)
+            cases.append(({"kind": "invlink", "entries": entries, "links": [link], "text": text, "base": base}, obs))
+            lines.append("\t".join(["invlink", "1" if explicit else "0"] + [enc_ostr(x) for x in (pi, pd, po, pt)] + enc_invs({"k": inv})))
+    outs = model_run_parallel(PID, lines)
+    for (case, obs), o in zip(cases, outs):
+        ctx.corr_cases += 1
+        ctx.count("invlink:" + obs.split(" ")[0])
+        if obs.split(" ")[0] in ("one", "ambiguous"):
+            ctx.nontriv(("l", case["text"], repr(case["entries"]), case["base"]))
+        if obs != o:
+            ctx.disagree("render_link_inventory", case, obs, o)
 
 
 # ------------------------------------------------------------------ direct property oracle
@@ -284,7 +337,7 @@ def check_invlink(ctx, case):
             f.write(make_inv_bytes(entries))
         text = case["text"]
         try:
-            doc, ws = publish(text, {"myst_inventories": {"k": ("https://e.org/base", path)}})
+            doc, ws = publish(text, {"myst_inventories": {"k": (case.get("base", "https://e.org/base"), path)}})
         except Exception as e:
             ctx.fail("invlink:exception:" + type(e).__name__, case, f"inv link document raised {e!r}")
             return False
@@ -310,7 +363,9 @@ def check_invlink(ctx, case):
             if len(ms) > 1:
                 exp_w.append("myst.iref_ambiguous")
             e = ms[0]
-            exp_refs.append("https://e.org/base/" + (e[3][:-1] + e[2] if e[3].endswith("$") else e[3]))
+            loc = e[3][:-1] + e[2] if e[3].endswith("$") else e[3]
+            base = case.get("base", "https://e.org/base")
+            exp_refs.append(loc if (not base or loc.startswith("/")) else base + loc if base.endswith("/") else base + "/" + loc)
     got_w = [w["tag"] for w in warns]
     got_refs = [r["refuri"] for r in refs]
     if got_w != exp_w or got_refs != exp_refs:
